@@ -110,7 +110,8 @@ def _exc_signature(op, cls, e):
     """stable signature of an exception; the known defects of the pinned tree get their own"""
     msg = str(e)
     two = cls.startswith("two-component-qn")
-    if two and isinstance(e, ValueError) and "Inconsistent quantum number size" in msg:
+    if two and isinstance(e, ValueError) and "Inconsistent quantum number size" in msg \
+            and ("expectation" in op or "ttns_norm" in op):
         base = "ttns_norm" if op.endswith("ttns_norm") else "expectation"
         return base + ":two-component-qn:dummy-qn-size"
     if two and isinstance(e, ValueError) and op.endswith("update_2site") and "cannot reshape array" in msg:
@@ -472,7 +473,11 @@ def _expect_check(case, ctx, op, a, ttno, ref, oscale, cls=None, **kw):
             if nd is not None:
                 nd.parent = None
         return
-    case.close(op, cls, np.array([complex(got)]), np.array([complex(ref)]), TOL_RING * oscale * 10, **kw)
+    got, ref = complex(got), complex(ref)
+    if abs(ref.imag) < 1e-6 * oscale:
+        # `expectation` returns the real part alone when np.isclose(imag, 0) (atol 1e-8)
+        got, ref = got.real, ref.real
+    case.close(op, cls, np.array([got]), np.array([ref]), TOL_RING * oscale * 10, **kw)
     # the state and the basis tree must still be usable (expectation re-parents the roots temporarily)
     if a.root.parent is not None or a.basis.root.parent is not None:
         case.violation(f"{op}:{cls}:root-left-with-parent")
@@ -910,7 +915,10 @@ def _case_from_mps(run, rng, quick, case_seed, icase):
     oscale = max(1.0, np.abs(O).sum(axis=1).max())
     ok, e = case.call("from_mps:expectation", cls, lambda: ttns.expectation(ttno))
     if ok:
-        case.close("from_mps:expectation", cls, np.array([complex(e)]), np.array([complex(ref_e)]), TOL_FACT * oscale)
+        e, ref_e = complex(e), complex(ref_e)
+        if abs(ref_e.imag) < 1e-6 * oscale:
+            e, ref_e = e.real, ref_e.real
+        case.close("from_mps:expectation", cls, np.array([e]), np.array([ref_e]), TOL_FACT * oscale)
     # the tree state must be a usable TTNS: canonical as promised, compressible without loss
     _check_canonical(case, "from_mps", dict(qs=qs), ttns)
     if n > 1:
